@@ -718,6 +718,56 @@ def slice_unwritable_names(ctx, sink):
     return ok
 
 
+def slice_same_basenames(ctx, sink):
+    """`mpq create` from inputs of several directories whose base names coincide (exactly, or up to ASCII case): the archive
+    stores base names, so it cannot hold them all.  Either the tool refuses (exit != 0), or - exit 0 - extracting the archive
+    gives back every input bit-identically; exit 0 with an input silently left out is an incomplete output."""
+    res = sink.res
+    shapes = [("same", ["textures/readme.txt", "sounds/readme.txt", "textures/a.blp"]), ("case", ["ui/Frame.XML", "ui2/frame.xml", "ui/b.lua"]),
+              ("three", ["a/data.bin", "b/data.bin", "c/data.bin"]), ("none", ["a/one.bin", "b/two.bin", "c/three.bin"])]
+    configs = [("v1", "zlib"), ("v4", "none")] if ctx.thorough else [("v1", "zlib") if ctx.seed % 2 else ("v4", "none")]
+    jobs = [(ver, comp, sh, rels) for (ver, comp) in configs for (sh, rels) in shapes]
+
+    def one(job):
+        ver, comp, sh, rels = job
+        d = ctx.newdir(f"samebase-{ver}-{sh}")
+        rnd = random.Random(f"c20-{ctx.seed}-samebase-{ver}-{sh}")
+        model = {}
+        args = ["mpq", "create", os.path.join(d, "t.mpq")]
+        for rel in rels:
+            pth = os.path.join(d, "in", rel)
+            os.makedirs(os.path.dirname(pth), exist_ok=True)
+            data = (rel + "\n").encode() * 3 + rnd.randbytes(200 + len(model) * 17)
+            with open(pth, "wb") as fh:
+                fh.write(data)
+            model[rel] = data
+            args += ["-a", pth]
+        args += ["--version", ver, "-c", comp, "--with-listfile"]
+        r = ctx.run_cli(args)
+        out = os.path.join(d, "out")
+        os.makedirs(out)
+        rx = ctx.run_cli(["mpq", "extract", os.path.join(d, "t.mpq"), "-o", out]) if r["rc"] == 0 else None
+        got = sorted(tree_of(out).values()) if rx is not None else []
+        return d, model, args, r, rx, got
+
+    outs = pmap(one, jobs)
+    for (ver, comp, sh, rels), (d, model, args, r, rx, got) in zip(jobs, outs):
+        viols = []
+        detail = {"cmd": short_cmd(args, ctx.scratch), "inputs": rels, "exit": r["rc"], "stderr_tail": r["err"][-300:]}
+        if r["rc"] == 0:
+            missing = [rel for rel, data in model.items() if data not in got]
+            res.add_counter("files_compared", len(model))
+            if missing or (rx is not None and rx["rc"] != 0):
+                detail["extracted_files"] = len(got)
+                viols.append(("exit0-but-failed" if sh != "none" else "roundtrip-differs", f"`mpq create` exited 0 for inputs {rels} but create -> extract does not give back {missing or 'them (extract failed)'}", detail))
+        elif sh == "none" and r["rc"] is not None:
+            viols.append(("roundtrip-differs", f"`mpq create` exited {rc_class(r['rc'])} on readable inputs with distinct base names", detail))
+        res.add_counter(f"same-basenames|{sh}|{'exit0' if r['rc'] == 0 else 'nonzero'}", 1)
+        sink.record("mpq", "create", "base-names-" + ("coincide" if sh != "none" else "distinct"), f"{ver}-{sh}", r, viols,
+                    sample={"slice": "A4", "cmd": short_cmd(args, ctx.scratch), "exit": r["rc"]}, replay={"slice": "A4", "shape": sh, "version": ver})
+        shutil.rmtree(d, ignore_errors=True)
+
+
 # ------------------------------------------------------------------------------------ slice B: list / info
 
 def lib_view(ctx, items, tag):
@@ -1434,6 +1484,7 @@ def run(tier, seed, scratch, t0):
     dir_archives = slice_dirs(ctx, sink, filesets)
     slice_overwrite(ctx, sink, archives, filesets)
     unw_archives = slice_unwritable_names(ctx, sink)
+    slice_same_basenames(ctx, sink)
     sup.log(f"[C20] A2/A3 done, {res.cases} runs ({time.time()-t0:.1f}s)")
     views = slice_list_info(ctx, sink, archives + dir_archives + unw_archives)
     sup.log(f"[C20] B done, {res.cases} runs ({time.time()-t0:.1f}s)")
